@@ -240,7 +240,9 @@ func (d *drv) genDef(ver string) cluster.Definition {
 		def.ValidatorAddresses = append(def.ValidatorAddresses, va)
 	}
 	if minor(ver) >= 8 || r.Chance(1, 3) {
-		sets := [][]eth2p0.Gwei{nil, {32000000000}, {16000000000, 16000000000}, {1000000000, 31000000000}, {8000000000, 8000000000, 16000000000}}
+		// also NON-ascending lists: the order of deposit_amounts is hashed, a codec that normalises it changes the hashes
+		sets := [][]eth2p0.Gwei{nil, {32000000000}, {16000000000, 16000000000}, {1000000000, 31000000000}, {8000000000, 8000000000, 16000000000},
+			{31000000000, 1000000000}, {24000000000, 8000000000}, {16000000000, 8000000000, 8000000000}, {8000000000, 16000000000, 8000000000}}
 		def.DepositAmounts = sets[r.Intn(len(sets))]
 	}
 	if minor(ver) >= 9 || r.Chance(1, 3) {
